@@ -12,7 +12,7 @@ CHECKS = {
          "Trusts model/preds.go (reference predicates) and the documented absent rule; no PostTransforms in these cases.",
          "DESIGN.md section 5 C01"),
  "C02": (RAPID + "generated schema x input x mode; multiset comparison of issues against an executable specification",
-         "Generated-input search: random schema trees (all node kinds, modifiers, tests, nesting) with inputs derived from per-leaf witnesses and perturbed (absent forms, neighbours, un-coercible junk), each executed several times so that different field visit orders occur; the returned issues must equal, as a multiset of (path, code, type), the issues computed by an independent executable specification, and nil-ness must agree. Cases include custom coercers, Preprocess wrappers, reusable z.TestFunc values specialised by field assignment, schemas assembled with Merge/Extend/Pick/Omit, embedded destination fields, inputs as typed / user-defined Go maps and Go structs; every execution starts after a fixed process prelude (collected issues, recovered panic). Exploration only: absence of counter-examples within the generated bounds.",
+         "Generated-input search: random schema trees (all node kinds, modifiers, tests, nesting) with inputs derived from per-leaf witnesses and perturbed (absent forms, neighbours, un-coercible junk), each executed several times so that different field visit orders occur; the returned issues must equal, as a multiset of (path, code, type), the issues computed by an independent executable specification, and nil-ness must agree. Cases include custom coercers, Preprocess wrappers, reusable z.TestFunc values specialised by field assignment, complex tests (z.Test{Func} reporting through ctx.AddIssue with ctx.Issue() or hand-built issues), schemas assembled with Merge/Extend/Pick/Omit, embedded destination fields, inputs as typed / user-defined Go maps and Go structs; every execution starts after a fixed process prelude (collected issues, recovered panic). Exploration only: absence of counter-examples within the generated bounds.",
          "Trusts the harness specification (model/spec.go, model/preds.go), written from the documentation; cases whose coercion the documentation leaves open are skipped and counted; PostTransforms never fail in these cases.",
          "DESIGN.md section 5 C02"),
  "C03": (RAPID + "representation matrix x schema options; whole-destination comparison with the documented coercion table over sentinel-prefilled destinations",
@@ -28,19 +28,19 @@ CHECKS = {
          "PostTransforms only in the with-transforms sub-checks; no empty schema keys (their issue path coincides with the parent's); struct/slice-level tests are data-independent in these cases so that the twin is comparable.",
          "DESIGN.md section 5 C05"),
  "C09": (RAPID + "metamorphic: permuted schema/input insertion orders x repeated runs must agree; visit orders observed",
-         "Each case is built K times with permuted field insertion order and input-map insertion order and run R times; all runs must agree on issues (path, code, type, message), issue-map keys and, on success, the destination; $first must be one of the issues. The visit orders actually taken are observed through recorder tests and reported. Exploration; order coverage is measured, not assumed.",
+         "Each case is built K times with permuted field insertion order and input-map insertion order and run R times; all runs must agree on issues (path, code, type, message), issue-map keys and, on success, the destination (a third of the cases let sibling fields report one shared issue value from complex tests); $first must be one of the issues. The visit orders actually taken are observed through recorder tests and reported. Exploration; order coverage is measured, not assumed.",
          "Relies on Go's map iteration randomisation plus insertion-order forcing; excludes constructs that are order-dependent by the documented global PostTransform gating.",
          "DESIGN.md section 5 C09"),
  "C18": ("exhaustive boundary product + " + RAPID + "random magnitudes; exact big-number oracle",
-         "Destination width x source representation x boundary magnitudes enumerated completely, plus random values; the outcome must be a coerce issue or the exact (truncated / correctly rounded) number, decided with math/big; padded numeric strings, json.Number, near-integer floats, exponents up to 1e60, numbers inside typed maps. Exhaustive over the listed boundary sets, exploration beyond.",
+         "Destination width x source representation x boundary magnitudes enumerated completely, plus random values; the outcome must be a coerce issue or the exact (truncated / correctly rounded) number, decided with math/big; padded numeric strings, json.Number, near-integer floats, exponents up to 1e60, numbers inside typed maps and typed slices. Exhaustive over the listed boundary sets, exploration beyond.",
          "Rounding to nearest on float narrowing is accepted as the same number; strings outside plain decimal/exponent syntax are only checked when rejected or exactly modelled.",
          "DESIGN.md section 5 C18"),
  "C06": (RAPID + "wild-value generator (registry of ~120 Go values spliced into valid inputs, hostile JSON / form / query / env text) + exhaustive wild-value x root-kind product; oracle: recover() around Parse",
-         "Well-formed (schema, destination) pairs (all node kinds, >8 fields, keys up to 64 bytes, Preprocess, Custom) are fed Go values in which random subtrees are replaced by values of unusual dynamic types, and documents/strings through every front end (chains of executions on one schema, each followed by the process prelude; env / form / query values from a pool of hostile short strings: every ASCII punctuation character alone, unbalanced quotes and brackets, escapes); any panic is a violation. The registry x 17 root kinds product is enumerated completely. Exploration (plus native fuzzing of the byte-level front ends in the thorough tier).",
+         "Well-formed (schema, destination) pairs (all node kinds, >8 fields, keys up to 64 bytes, Preprocess, Custom) are fed Go values in which random subtrees are replaced by values of unusual dynamic types, and documents/strings through every front end (chains of executions on one schema, each followed by the process prelude; env / form / query values from a pool of hostile short strings: every ASCII punctuation character alone, unbalanced quotes and brackets, escapes); any panic is a violation. The registry x 17 root kinds product is enumerated completely, and so is Custom[T] for 20 shapes of T (arrays, named types, structs, slices, maps, pointers, interfaces) x registry x 5 positions. Exploration (plus native fuzzing of the byte-level front ends in the thorough tier).",
          "Quantifies over a finite registry of Go types; harness callbacks are nil-safe so an observed panic is zog's; termination guarded by a time limit (exit 2).",
          "DESIGN.md section 5 C06"),
  "C07": (RAPID + "generated call histories (model = same call on cleared pools) with fault injection into the sync.Pools",
-         "Histories of calls (incl. zjson documents, urlencoded bodies through zhttp, and calls that reuse an earlier call's schema OBJECT with another destination type), Collect*/Sanitize*AndCollect of earlier results, forced GC, panicking user callbacks and injection of dirty recycled objects (every exported field junk) into each of the seven pools, calls whose single issue comes from a failing PostTransform, Preprocess roots, re-observation of results held from earlier calls; after every call the complete observable result (all issue fields, destination, context values seen by callbacks) must equal the result of the same call on freshly cleared pools with a never-used schema object. Exploration over histories; pool contents are owned deterministically through the exported pool variables.",
+         "Histories of calls (incl. zjson documents, urlencoded bodies through zhttp, and calls that reuse an earlier call's schema OBJECT with another destination type), Collect*/Sanitize*AndCollect of earlier results, forced GC, panicking user callbacks (eight variants: pointer roots, Validate, list elements, PostTransform, custom function, Preprocess, the documented missing-field panic), calls made from inside a callback of another execution, and injection of dirty recycled objects (every exported field junk) into each of the seven pools, calls whose single issue comes from a failing PostTransform, Preprocess roots, re-observation of results held from earlier calls; after every call the complete observable result (all issue fields, destination, context values seen by callbacks) must equal the result of the same call on freshly cleared pools with a never-used schema object. Exploration over histories; pool contents are owned deterministically through the exported pool variables.",
          "Only this package imports zog/internals. Dirty objects are limited to shapes reachable through zog's API. Pristine reference computed with internals.ClearPools().",
          "DESIGN.md section 5 C07"),
  "C08": (RAPID + "generated concurrent workloads on shared schema objects under the Go race detector, per-call comparison with sequential results",
@@ -56,11 +56,11 @@ CHECKS = {
          "Expected codes and param keys from zconst / reference.md (model/preds.go DefaultParams); Bool True/False accept either documented code.",
          "DESIGN.md section 5 C11"),
  "C12": (RAPID + "recorder callbacks everywhere; invariants over the totally ordered event log of one execution",
-         "Spec-free invariants over the log of callback invocations and issue creations: argument contract (value for primitive tests, non-nil pointer with the address of the governed destination otherwise, computed by reflection), ctx.Get equals exactly this call's WithCtxValue, PostTransform discipline (declaration order, at most once, stop at first error, never after an issue, all on success, also for a node that used its Catch value, error wrapped at the node's path even when the returned error wraps or joins a ZogIssue), Preprocess failure (Parse: string-typed and any-typed functions; Validate: pointer-typed functions) silences the wrapped schema and every implied Preprocess issue is reported. One schema object placed at several positions with different destination types, callbacks on user-defined named primitive types, and sibling derivations (Pick/Omit/Extend made from the schema and given their own callbacks, which must never run) are covered by dedicated sub-checks. Both modes, all nestings. Exploration.",
+         "Spec-free invariants over the log of callback invocations and issue creations: argument contract (value for primitive tests, non-nil pointer with the address of the governed destination otherwise, computed by reflection), ctx.Get equals exactly this call's WithCtxValue, PostTransform discipline (declaration order, at most once, stop at first error, never after an issue, all on success, also for a node that used its Catch value, error wrapped at the node's path even when the returned error wraps or joins a ZogIssue), Preprocess failure (Parse: string-typed and any-typed functions; Validate: pointer-typed functions) silences the wrapped schema and every implied Preprocess issue is reported; every test / custom function is called exactly as often as the documented pipeline says (Default before Required, not where the value is absent or un-coercible). One schema object placed at several positions with different destination types, callbacks on user-defined named primitive types, and sibling derivations (Pick/Omit/Extend made from the schema and given their own callbacks, which must never run) are covered by dedicated sub-checks. Both modes, all nestings. Exploration.",
          "Recorders are supplied by the harness and never panic; tests carry no Message so every issue passes the logging execution formatter.",
          "DESIGN.md section 5 C12"),
  "C13": (RAPID + "differential: Validate(&v) versus Parse(toMap(v), &fresh) on fully populated values",
-         "For generated schemas (no Preprocess) and fully populated typed values, validating in place and parsing the same value presented as a map must report the same (path, code, type, message) multiset and leave equal values; a second sub-check places one failing PostTransform (error or ZogIssue) at a random node; a third uses linear (single-path) schemas with infinities and extreme values. Exploration.",
+         "For generated schemas (no Preprocess) and fully populated typed values, validating in place and parsing the same value presented as a map must report the same (path, code, type, message) multiset and leave equal values (custom functions may normalise the value through their pointer); a second sub-check places one failing PostTransform (error or ZogIssue) at a random node; a third uses linear (single-path) schemas with infinities and extreme values. Exploration.",
          "Values compared only where the documented global PostTransform gating makes them order-independent.",
          "DESIGN.md section 5 C13"),
  "C14": (RAPID + "one logical record rendered through six front ends; each compared with the specification and all with each other",
@@ -68,11 +68,11 @@ CHECKS = {
          "Renderings a front end cannot express are skipped per front end and counted; strings are valid UTF-8 without edge white space.",
          "DESIGN.md section 5 C14"),
  "C15": ("exhaustive product method x Content-Type x body x query (about 36 000 requests) + " + RAPID + "random requests; source sentinels and recording coercers",
-         "Every request of the product (plus reduced products with a z.Ptr(z.Struct) root and with requests a middleware has already parsed through r.ParseForm / r.FormValue, incl. well-formed multipart bodies; Content-Type parameters of any shape; every case starts after an earlier invalid request whose issues were collected) is sent through zhttp.Request into a schema whose coercers record the raw value handed to each field; the expected source follows the statement's dispatch table (net/http decides which methods read a form body); undecodable bodies must give exactly one invalid_json/invalid_form issue at $root with the schema not run and the sentinel destination untouched; {} means all absent; repeated or []-suffixed parameters are lists, single ones strings, missing ones absent; schemas without fields still decode the request; bodies of unknown length (chunked, wrapped readers) are read to the end. Exhaustive over the product, exploration for random fragments.",
+         "Every request of the product (plus reduced products with a z.Ptr(z.Struct) root and with requests a middleware has already parsed through r.ParseForm / r.FormValue, incl. well-formed multipart bodies; Content-Type parameters of any shape; every case starts after an earlier invalid request whose issues were collected) is sent through zhttp.Request into a schema whose coercers record the raw value handed to each field; the expected source follows the statement's dispatch table (net/http decides which methods read a form body); undecodable bodies must give exactly one invalid_json/invalid_form issue at $root with the schema not run and the sentinel destination untouched; {} means all absent; repeated or []-suffixed parameters are lists, single ones strings, missing ones absent; schemas without fields still decode the request; bodies of unknown length (chunked, wrapped readers) are read to the end; JSON documents padded with every kind of white space (JSON's four and look-alikes) before, after and inside. Exhaustive over the product, exploration for random fragments.",
          "Content-Type spellings outside the documented form and JSON followed by trailing data are outside the domain (skipped).",
          "DESIGN.md section 5 C15"),
  "C16": (RAPID + "model-based state machine over derivation histories; every live schema re-probed against a hand-written equivalent after every step",
-         "Histories of base (a sixth widened to 9 and more fields) / Pick / Omit (also removing nothing) / Extend / Merge / later TestFunc / PostTransform (with test options) / hooks-only bases without fields over a growing set of live schemas; a model (field map, test ids, PostTransform ids) is updated with the documented set semantics and after every step every live schema must behave like a schema written out by hand from its model (issues, destination, callback sequence). Exploration over histories.",
+         "Histories of base (a sixth widened to 9 and more fields) / Pick / Omit (also removing nothing) / Extend / Merge / later TestFunc / PostTransform (with test options) / hooks-only bases without fields over a growing set of live schemas, keys spelled lower-case, Go-style or mixed; a model (field map, test ids, PostTransform ids) is updated with the documented set semantics and after every step every live schema must behave like a schema written out by hand from its model (issues, destination, callback sequence). Exploration over histories.",
          "Keys picked/omitted are the operand's own keys.",
          "DESIGN.md section 5 C16"),
  "C17": (RAPID + "random builder chains applied call by call, read literally into a model node and compared with the specification; shared schema objects; WithCoercer locality catalogue",
@@ -80,7 +80,7 @@ CHECKS = {
          "Not() only generated directly before a negatable test (what the NotStringSchema interface allows).",
          "DESIGN.md section 5 C17"),
  "C19": (RAPID + "execution histories with deep snapshots of inputs and schema-owned values, destination scribbling, verbatim repeats",
-         "Histories of 2-6 executions on one schema: the input's deep snapshot and the snapshots of every reference-typed value the schema was given (slice defaults, OneOf lists) must be unchanged after each call and after the harness overwrites the returned destination (incl. spare slice capacity); a verbatim repeated execution must give the same result; Validate without Default/Catch/PostTransform leaves the value unchanged. Inputs include Go values of the destination's own type; a second sub-check treats requests handed to zhttp as input data (parsed form unchanged, same result when parsed again); per-execution formatters are markers that must not survive into the next execution. Exploration.",
+         "Histories of 2-6 executions on one schema: the input's deep snapshot and the snapshots of every reference-typed value the schema was given (slice defaults, OneOf lists) must be unchanged after each call and after the harness overwrites the returned destination (incl. spare slice capacity); a verbatim repeated execution must give the same result; Validate without Default/Catch/PostTransform leaves the value unchanged. Inputs include Go values of the destination's own type; a second sub-check treats requests handed to zhttp as input data (parsed form unchanged, same result when parsed again); per-execution formatters are markers that must not survive into the next execution; a third sub-check compares the whole value after Validate with the specification's (also with issues, also below a Preprocess whose function failed). Exploration.",
          "Schema-owned values are observed through references kept by the harness.",
          "DESIGN.md section 5 C19"),
  "C20": ("exhaustive sweeps over small alphabets/ranges + " + RAPID + "random strings and grammar-derived subjects; independent reference predicates",
